@@ -166,6 +166,16 @@ def set_objective(
         reverse_value, direction=model.solver.objective.direction, sloppy=True
     )
 
+    # record the undo first, the objective is replaced step by step below
+    context = get_context(model)
+    if context:
+
+        def reset():
+            model.solver.objective = reverse_value
+            model.solver.objective.direction = reverse_value.direction
+
+        context(reset)
+
     if isinstance(value, dict):
         if not model.objective.is_Linear:
             raise ValueError(
@@ -200,15 +210,6 @@ def set_objective(
             model.solver.objective += value.expression
     else:
         raise TypeError(f"{value} is not a valid objective for {model.solver}.")
-
-    context = get_context(model)
-    if context:
-
-        def reset():
-            model.solver.objective = reverse_value
-            model.solver.objective.direction = reverse_value.direction
-
-        context(reset)
 
 
 def interface_to_str(interface: Union[str, ModuleType]) -> str:
